@@ -35,6 +35,9 @@ size_t g_cb_calls; int g_cb_arg; _Bool g_cb_in_at_call;
 _Bool g_reentrant;           /* callbacks may change the subject (C10) or not (C05) */
 _Bool g_thrown;              /* an exception was thrown (lowered as ghost flag + return) */
 size_t g_turn_seen;
+size_t g_c2;                 /* arbitrary index into the snapshot list */
+_Bool g_in_snapshot; size_t g_turn_pos; _Bool g_mute0, g_valid0;   /* facts about the watched subscription when the round started */
+size_t g_cur_pos, g_cb_pos;      /* position of the delivery loop; position at which the watched callback ran */
 size_t g_oi0, g_len0; _Bool g_in0; unsigned int g_hid; struct Subj *g_hsubj;   /* pre-state constants bound in requires */          /* how often the delivery loop reached the watched entry */
 static void X_throw(const char *what) { g_thrown = 1; }
 static void X_swap__unsigned_int_ref_unsigned_int_ref(unsigned int *a, unsigned int *b) { unsigned int t = *a; *a = *b; *b = t; }
